@@ -7,7 +7,7 @@ Configuration phase
   `cfg <latency_ms> <fee> <cap> <n> <bal>*n <k> <base:quote>*k`   (`bal` is `x` or `total:free`)
   `grp <instr>`   `ord <instr> <strategy> <cid> <B|S> <M|L> <price> <qty> <tif> <state…>`
   `start <workers>`   |   `dcancel`
-Running phase
+Running phase (`<t>`, `<since>`: milliseconds within chrono's `DateTime<Utc>` range, else `bad-op`)
   `clock <t>`  `call <w> open <instr> <B|S> <M|L> <price> <qty> <strategy> <cid> <tif>`
   `call <w> snap|balances|orders`  `call <w> trades <since>`  `call <w> cancel <instr> <strategy> <cid>`
   `abandon <w>`  `exch off|on|stop`  `adv <ms>`  `sub`  `poll <s>`
@@ -111,6 +111,13 @@ def parseOrd : List String → Option InitOrd
     | _, _, _, _, _, _, _, _, _ => none
   | _ => none
 
+/-- A time the harness can turn into a `DateTime<Utc>` (`Utc.timestamp_millis_opt`): chrono's range
+`[minTime, maxTime]`; anything else is not an input (`bad-op` on both sides). -/
+def parseTime (s : String) : Option Int :=
+  match s.toInt? with
+  | some t => if minTime ≤ t ∧ t ≤ maxTime then some t else none
+  | none => none
+
 def parseCall : List String → Option Call
   | ["open", i, sd, kd, p, q, st, cid, tif] =>
     match i.toNat?, parseSide sd, parseKind kd, parseRat? p, parseRat? q, st.toNat?, cid.toNat?, parseTif tif with
@@ -120,7 +127,7 @@ def parseCall : List String → Option Call
   | ["snap"] => some .snap
   | ["balances"] => some .balances
   | ["orders"] => some .orders
-  | ["trades", since] => since.toInt?.map .trades
+  | ["trades", since] => (parseTime since).map .trades
   | ["cancel", i, st, cid] =>
     match i.toNat?, st.toNat?, cid.toNat? with
     | some i, some st, some cid => some (.cancel i st cid)
@@ -128,7 +135,7 @@ def parseCall : List String → Option Call
   | _ => none
 
 def parseOp : List String → Option Op
-  | ["clock", t] => t.toInt?.map .clock
+  | ["clock", t] => (parseTime t).map .clock
   | "call" :: w :: rest =>
     match w.toNat?, parseCall rest with
     | some w, some c => some (.call w c)
